@@ -48,7 +48,7 @@ def warm():
 
 def sizes(tier):
     if tier == "thorough":
-        return {"runs": 80000, "block": 100, "det": 64, "det_fresh": 8, "timeout": 3300, "order": 4000}
+        return {"runs": 50000, "block": 100, "det": 64, "det_fresh": 8, "timeout": 6500, "order": 2000}
     return {"runs": 2400, "block": 25, "det": 24, "det_fresh": 6, "timeout": 900, "order": 200}
 
 
@@ -123,7 +123,8 @@ def gen_plan(rng, tier, index=0):
                  if (kind in ("VK", "KOL") and rows >= 1 and restart is None and r.chance(0.3)) else None)
         actors.append({"kind": kind, "params": params, "seed": s1, "rows": rows, "twin_of": None, "group": g, "scribble": scrib, "restart": restart, "clone": clone})
         actors.append({"kind": kind, "params": params, "seed": s1, "rows": rows, "twin_of": a, "group": g, "scribble": scrib, "restart": restart,
-                       "clone": (clone if r.chance(0.5) else None)})
+                       "clone": (clone if r.chance(0.5) else None),
+                       "mutate_seed_after": (isinstance(s1, dict) and "seq" in s1 and restart is None and r.chance(0.6))})
         if kind in ("FT", "FTSH") and r.chance(0.3):
             # a third call with the same seed, later still
             actors.append({"kind": kind, "params": params, "seed": s1, "rows": rows, "twin_of": a, "group": g, "scribble": scrib})
@@ -183,6 +184,9 @@ class _Actor(object):
                     self.result = out
                 else:
                     self.obj = screens.construct_infinite(kind, sp["params"], seed)
+                    if sp.get("mutate_seed_after") and isinstance(seed, list):
+                        seed[-1] += 1          # the caller reuses its seed list for the next layer: the constructor has returned,
+                        seed.append(99)        # the screen must already be what the seed said at the call
                     out = self.obj.scrn
             else:
                 if self.dead:
